@@ -139,6 +139,42 @@ func cdxInput(r *rand.Rand, depth int) (comp map[string]any, count int) {
 	if r.Intn(3) == 0 {
 		comp["version"] = "1.0"
 	}
+	// optional members of every kind the parser maps: they take part in determinism and layout independence
+	if r.Intn(3) == 0 {
+		lics := []any{}
+		for i, n := 0, 1+r.Intn(3); i < n; i++ {
+			switch r.Intn(3) {
+			case 0:
+				lics = append(lics, map[string]any{"license": map[string]any{"id": pick(r, []string{"MIT", "Apache-2.0"})}})
+			case 1:
+				lics = append(lics, map[string]any{"license": map[string]any{"name": "Custom licence \"Q\""}})
+			default:
+				lics = append(lics, map[string]any{"expression": "MIT OR (Apache-2.0 AND BSD-3-Clause)"})
+			}
+		}
+		comp["licenses"] = lics
+	}
+	if r.Intn(3) == 0 {
+		comp["hashes"] = []any{map[string]any{"alg": pick(r, []string{"SHA-1", "SHA-256", "BLAKE3"}), "content": "00ff"},
+			map[string]any{"alg": "MD5", "content": "aa"}}
+	}
+	if r.Intn(3) == 0 {
+		comp["purl"] = "pkg:npm/%40scope/name@1.0?arch=x#sub"
+	}
+	if r.Intn(4) == 0 {
+		comp["cpe"] = "cpe:2.3:a:v:p:1:*:*:*:*:*:*:*"
+	}
+	if r.Intn(4) == 0 {
+		comp["description"], comp["copyright"] = "d\u00e9scription\twith tab", "(c) 2024 <someone>"
+	}
+	if r.Intn(4) == 0 {
+		comp["externalReferences"] = []any{
+			map[string]any{"type": pick(r, []string{"vcs", "website", "other", "distribution"}), "url": "https://example.com/?a=1&b=2", "comment": "c"},
+			map[string]any{"type": "build-meta", "url": "https://ci.example.com", "hashes": []any{map[string]any{"alg": "SHA-256", "content": "11"}}}}
+	}
+	if r.Intn(5) == 0 {
+		comp["supplier"] = map[string]any{"name": "ACME", "url": []any{"https://acme.example"}, "contact": []any{map[string]any{"name": "J", "email": "j@acme.example"}}}
+	}
 	count = 1
 	if depth > 0 && r.Intn(2) == 0 {
 		kids := []any{}
@@ -424,6 +460,7 @@ func sniffObserve(data []byte) map[string]any {
 	pos, _ := rd.Seek(0, io.SeekCurrent)
 	ev["pos"] = int(pos)
 	ev["atype"], ev["aversion"], ev["aenc"] = f.Type(), f.Version(), f.Encoding()
+	ev["amajor"], ev["aminor"], ev["auri"] = f.Major(), f.Minor(), f.URI()
 	// parsing from the same stream after detection must see the whole document: same outcome as a fresh parse
 	if k == "ok" && err == nil {
 		rest, _ := io.ReadAll(rd)
@@ -555,6 +592,18 @@ func sniffRun(args []string) error {
 				ev["op"], ev["sid"], ev["src"], ev["want"] = "SNIFF", sid, "file-rewritten:"+f, want[f]
 				w.write(ev)
 			}
+		}
+		os.RemoveAll(dir)
+	}
+	// paths that are not readable files: missing, a directory, a dangling symbolic link
+	if dir, err := os.MkdirTemp("", "vh-sniffpath-"); err == nil {
+		os.Symlink(filepath.Join(dir, "nowhere"), filepath.Join(dir, "dangling"))
+		for name, path := range map[string]string{"missing": filepath.Join(dir, "missing.json"), "directory": dir, "dangling-link": filepath.Join(dir, "dangling"), "empty-path": ""} {
+			var got formats.Format
+			var ferr error
+			k, t := guarded(20*time.Second, func() { s := formats.Sniffer{}; got, ferr = s.SniffFile(path) })
+			sid++
+			w.write(map[string]any{"op": "SNIFFPATH", "sid": sid, "case": name, "o": outcome(k, t), "res": string(got), "err": ferr != nil})
 		}
 		os.RemoveAll(dir)
 	}
